@@ -15,7 +15,7 @@ package pogreb
 // position rather than over the bucket offset, so that the byte reads in le64 have the bound variable as index)
 //@ spec func nextPos(q int64, n int64) bool = bucketAt(q - 496, n)
 // every bucket of a file of length n (contents m) has a well-formed overflow pointer
-//@ spec func opaque chainsOK(m mem, n int64, ovfSize int64) bool = forall q int64 :: nextPos(q, n) ==> nextOK(int64(le64(m, int(q))), ovfSize)
+//@ spec func opaque chainsOK(m mem, n int64, ovfSize int64) bool = forall q int64 :: trig(q) && nextPos(q, n) ==> nextOK(int64(le64(m, int(q))), ovfSize)
 
 //@ spec func idxFiles(idx *index) bool = idx != nil && allocated(idx.main) && allocated(idx.overflow) && idx.main != idx.overflow && fileInv(idx.main) && fileInv(idx.overflow) && idx.main.File != idx.overflow.File && fidOf[idx.main.File] != fidOf[idx.overflow.File] && idx.main.size >= 1024 && idx.main.size <= 0x20000000200 && idx.overflow.size >= 512 && idx.overflow.size <= 0x1000000000000
 // linear hashing state: numBuckets == 2^level + splitBucketIdx, the main file holds exactly numBuckets buckets
@@ -44,7 +44,7 @@ package pogreb
 //@   ensures inv: err == nil ==> fileInv(b.file) && b.file.size == old(b.file.size) && fLen[fidOf[b.file.File]] == old(fLen[fidOf[b.file.File]])
 //@   ensures slots: err == nil ==> forall p int :: 0 <= p && p < 31 ==> slotEncoded(fData[fidOf[b.file.File]], int(b.offset)+16*p, b.slots[p])
 //@   ensures next: err == nil ==> le64(fData[fidOf[b.file.File]], int(b.offset)+496) == uint64(b.next)
-//@   ensures nexts: err == nil ==> forall q int64 :: nextPos(q, b.file.size) ==> le64(fData[fidOf[b.file.File]], int(q)) == ite(q == b.offset + 496, uint64(b.next), le64(old(fData[fidOf[b.file.File]]), int(q)))
+//@   ensures nexts: err == nil ==> forall q int64 :: trig(q) && nextPos(q, b.file.size) ==> le64(fData[fidOf[b.file.File]], int(q)) == ite(q == b.offset + 496, uint64(b.next), le64(old(fData[fidOf[b.file.File]]), int(q)))
 //@   ensures others: err == nil ==> forall q int :: 0 <= q && q < int(b.file.size) && (q < int(b.offset) || q >= int(b.offset)+512) ==> fData[fidOf[b.file.File]][q] == old(fData[fidOf[b.file.File]])[q]
 //@   ensures err: err != nil ==> isIOErr(err)
 //@   modifies fData[fidOf[b.file.File]], fLen[fidOf[b.file.File]], fDur[fidOf[b.file.File]]
@@ -58,6 +58,8 @@ package pogreb
 //@   ensures slots: err == nil ==> forall p int :: 0 <= p && p < 31 ==> slotEncoded(fData[fidOf[b.file.File]], int(b.offset)+16*p, b.slots[p])
 //@   ensures next: err == nil ==> uint64(b.next) == le64(fData[fidOf[b.file.File]], int(b.offset)+496)
 //@   ensures advance: err == nil ==> it.off == b.next && it.f == it.overflow
+// (names the position of the overflow pointer that was read, so that callers' chain invariants are instantiated there)
+//@   ensures named: err == nil ==> trig(b.offset + 496)
 //@   ensures err: err != nil ==> isIOErr(err) || err == io.EOF || err == ErrIterationDone
 //@   modifies it.off, it.f
 
@@ -75,8 +77,8 @@ package pogreb
 //@   requires rec: len(rec.data) <= 0x80010009
 //@   ensures inv-log: err == nil ==> dbInv(db)
 //@   ensures inv-idx: err == nil ==> idxFiles(db.index) && idxLH(db.index)
-//@   ensures [C01] nexts-main: err == nil ==> forall q int64 :: nextPos(q, db.index.main.size) ==> le64(fData[fidOf[db.index.main.File]], int(q)) == le64(old(fData[fidOf[db.index.main.File]]), int(q))
-//@   ensures [C01] nexts-overflow: err == nil ==> forall q int64 :: nextPos(q, db.index.overflow.size) ==> le64(fData[fidOf[db.index.overflow.File]], int(q)) == le64(old(fData[fidOf[db.index.overflow.File]]), int(q))
+//@   ensures [C01] nexts-main: err == nil ==> forall q int64 :: trig(q) && nextPos(q, db.index.main.size) ==> le64(fData[fidOf[db.index.main.File]], int(q)) == le64(old(fData[fidOf[db.index.main.File]]), int(q))
+//@   ensures [C01] nexts-overflow: err == nil ==> forall q int64 :: trig(q) && nextPos(q, db.index.overflow.size) ==> le64(fData[fidOf[db.index.overflow.File]], int(q)) == le64(old(fData[fidOf[db.index.overflow.File]]), int(q))
 //@   ensures inv-main-chains: err == nil ==> chainsOK(fData[fidOf[db.index.main.File]], db.index.main.size, db.index.overflow.size)
 //@   ensures inv-overflow-chains: err == nil ==> chainsOK(fData[fidOf[db.index.overflow.File]], db.index.overflow.size, db.index.overflow.size)
 //@   ensures inv-disjoint: err == nil ==> idxLogDisjoint(db)
@@ -91,9 +93,9 @@ package pogreb
 // a record is discarded only after the whole bucket chain of its hash was walked (the iterator is at the end of the chain)
 //@   at call write@1: cases which-file: b.file == db.index.main || b.file == db.index.overflow
 //@   at call write@1: hint next-still-on-disk: uint64(b.next) == le64(fData[fidOf[b.file.File]], int(b.offset)+496) && fData[fidOf[db.index.main.File]] == old(fData[fidOf[db.index.main.File]]) && fData[fidOf[db.index.overflow.File]] == old(fData[fidOf[db.index.overflow.File]])
-//@   at return: hint main-other-nexts: err == nil && !reclaimed ==> forall q int64 :: nextPos(q, db.index.main.size) && !(b.file == db.index.main && q == b.offset + 496) ==> le64(fData[fidOf[db.index.main.File]], int(q)) == le64(old(fData[fidOf[db.index.main.File]]), int(q))
+//@   at return: hint main-other-nexts: err == nil && !reclaimed ==> forall q int64 :: trig(q) && nextPos(q, db.index.main.size) && !(b.file == db.index.main && q == b.offset + 496) ==> le64(fData[fidOf[db.index.main.File]], int(q)) == le64(old(fData[fidOf[db.index.main.File]]), int(q))
 //@   at return: hint main-own-next: err == nil && !reclaimed && b.file == db.index.main ==> le64(fData[fidOf[db.index.main.File]], int(b.offset)+496) == le64(old(fData[fidOf[db.index.main.File]]), int(b.offset)+496)
-//@   at return: hint overflow-other-nexts: err == nil && !reclaimed ==> forall q int64 :: nextPos(q, db.index.overflow.size) && !(b.file == db.index.overflow && q == b.offset + 496) ==> le64(fData[fidOf[db.index.overflow.File]], int(q)) == le64(old(fData[fidOf[db.index.overflow.File]]), int(q))
+//@   at return: hint overflow-other-nexts: err == nil && !reclaimed ==> forall q int64 :: trig(q) && nextPos(q, db.index.overflow.size) && !(b.file == db.index.overflow && q == b.offset + 496) ==> le64(fData[fidOf[db.index.overflow.File]], int(q)) == le64(old(fData[fidOf[db.index.overflow.File]]), int(q))
 //@   at return: hint overflow-own-next: err == nil && !reclaimed && b.file == db.index.overflow ==> le64(fData[fidOf[db.index.overflow.File]], int(b.offset)+496) == le64(old(fData[fidOf[db.index.overflow.File]]), int(b.offset)+496)
 //@   at return: assert [C01,C05] discard-only-at-chain-end: reclaimed && err == nil ==> it.off == 0
 //@   flag cumulative
